@@ -211,8 +211,16 @@ class Plumbing:
                             cenv[k.arg] = k.value if not (isinstance(k.value, ast.Name) and k.value.id in env) else env[k.value.id]
                     sub: list[FileEffect] = []
                     self._effects_of(t, cenv, sub, cond, depth + 1)
+                    # does every path through the helper perform (one of) its writes?
+                    gh = CFG(t.node)
+                    wn = {x for e in sub for x in gh.live if x.ast is not None and any(y is e.node or y is getattr(e, "node_in_save", None) for y in ast.walk(x.ast))}
+                    always = bool(wn) and gh.path_avoiding(gh.entry, {gh.exit}, wn) is None
                     for e in sub:
-                        e.node_in_save = n  # type: ignore[attr-defined]
+                        e.always = always and getattr(e, "always", True)  # type: ignore[attr-defined]
+                        e.node_in_save = getattr(n, "node_in_save", n) if False else n  # type: ignore[attr-defined]
+                        # translate the payload back into the caller's terms (callee parameter -> actual argument)
+                        if isinstance(e.payload, ast.Name) and e.payload.id in t.params and e.payload.id in cenv:
+                            e.payload = cenv[e.payload.id]
                     effects.extend(sub)
 
     def save_storage(self) -> dict[str, list[Storage]]:
